@@ -1,8 +1,8 @@
 (* C19 - Reconstructor output re-parses to the same tree.  Property theorems only; the model is
    Recons/Recons.v (+ Text.v), the proofs are in Recons/*_proofs.v. *)
 From Coq Require Import String Ascii List Arith Bool.
-From LV Require Import Base.Prelude Cfg.Grammar Recons.Recons Recons.Recons_proofs Recons.ReconsCheck
-     Recons.ReconsCheck_proofs Recons.Text Recons.Text_proofs Recons.Complete_proofs.
+From LV Require Import Base.Prelude Cfg.Grammar Earley.Spec Recons.Recons Recons.Recons_proofs Recons.ReconsCheck
+     Recons.ReconsCheck_proofs Recons.Text Recons.Text_proofs Recons.Complete_proofs Recons.Link_proofs Recons.Extra_proofs Recons.Roundtrip_proofs.
 Import ListNotations.
 
 (* core: one node.  For a supported match u of node (Node data cs) - root rule from rules_for_root[data], inner
@@ -43,19 +43,27 @@ Theorem C19_recons_token_roundtrip_partial :
 Proof. exact recons_token_roundtrip_partial. Qed.
 Print Assumptions C19_recons_token_roundtrip_partial.
 
-(* the full statement: additionally, reconstruction of every parser tree returns, for every matcher that is
-   complete (returns a supported match whenever one exists).  Proved so far: a supported match exists for every
-   parser tree (C19_match_exists).  Not proved: that write/recursion succeed on it for every such matcher. *)
-Definition C19_recons_token_roundtrip_full_statement : Prop :=
+(* stretch, the token-level round trip in full: for a matcher that returns only supported matches (M_ok) and returns
+   one whenever one exists, literals for all filtered terminals and terminal names distinct from rule/alias names,
+   reconstruction of every tree the parser can return succeeds, and its tokens parse back to exactly that tree.
+   (M_ok is a hypothesis about the Earley resolution inside match_tree; the harness checks it on every recorded
+   match; findings C19-F14 / C19-F16 show grammars where lark's matcher violates it.) *)
+Theorem C19_recons_token_roundtrip :
   forall (us : nat -> bool) (P : list prule), cls us P -> cls_extra us P ->
-  forall (lit : nat -> option string), (forall r n, In r P -> In (Tm n true) (p_exp r) -> lit n <> None) ->
+  forall (lit : nat -> option string),
+    (forall r n, In r P -> In (Tm n true) (p_exp r) -> lit n <> None) ->
+    (forall r n fo, In r P -> In (Tm n fo) (p_exp r) ->
+                    forall r', In r' P -> p_origin r' <> n /\ p_alias r' <> Some n) ->
   forall (M : stree -> option utree),
     (forall t u, M t = Some u -> exists data cs, t = Node data cs /\ supported us P u data cs) ->
     (forall data cs, (exists u, supported us P u data cs) -> M (Node data cs) <> None) ->
   forall start pr0 ds0,
-    wf P (DNode pr0 ds0) -> p_origin pr0 = start -> ~ In start (expand1s P) -> unambiguous P start ->
+    wf P (DNode pr0 ds0) -> p_origin pr0 = start -> ~ In start (expand1s P) -> us start = false ->
     exists fuel toks, recon lit M fuel (shape us (DNode pr0 ds0)) = Ok toks /\
-                      forall t', parses us P start toks t' -> t' = shape us (DNode pr0 ds0).
+      parses us P start toks (shape us (DNode pr0 ds0)) /\
+      (unambiguous P start -> forall t', parses us P start toks t' -> t' = shape us (DNode pr0 ds0)).
+Proof. exact recons_token_roundtrip. Qed.
+Print Assumptions C19_recons_token_roundtrip.
 
 (* stretch, completeness of _build_recons_rules: every tree the parser can return has a supported match *)
 Theorem C19_match_exists :
@@ -64,6 +72,15 @@ Theorem C19_match_exists :
     exists u, supported us P u (sym_name pr) (kids us (DNode pr ds)).
 Proof. exact match_exists. Qed.
 Print Assumptions C19_match_exists.
+
+(* ... and so the Earley chart of Earley/Spec.v, run over the node's children with the tree-matching rules the
+   model derives (terminals matched by _match), accepts: match_tree does not fail at the specification level *)
+Theorem C19_matcher_accepts :
+  forall (us : nat -> bool) (P : list prule), cls us P -> cls_extra us P ->
+  forall pr ds, wf P (DNode pr ds) -> uncollapsed us (DNode pr ds) ->
+    accepts_spec (to_cfg (G_for us P (sym_name pr))) stree cmatch (kids us (DNode pr ds)) (sym_name pr).
+Proof. exact matcher_accepts. Qed.
+Print Assumptions C19_matcher_accepts.
 
 (* text level, under H_relex: the joined text lexes back to the written tokens *)
 Theorem C19_text :
@@ -103,7 +120,7 @@ Definition ex_case : rcase :=
 Example C19_example :
   let us := uscore_of (c_names ex_case) in
   let P := c_rules ex_case in
-  check_case ex_case = true /\ cls us P /\
+  check_case ex_case = true /\ cls us P /\ cls_extra us P /\
   forall t ms items text, In (t, ms, items, text) (c_runs ex_case) ->
     (forall t0 u, lookup_match ms t0 = Some u -> exists data cs, t0 = Node data cs /\ supported us P u data cs) /\
     exists toks, recon (lookup_lit (c_lits ex_case)) (lookup_match ms) (S (height t)) t = Ok toks /\
@@ -114,6 +131,7 @@ Proof.
   intros us P.
   assert (Hcls : cls us P) by (apply class_b_sound; vm_compute; reflexivity).
   split; [vm_compute; reflexivity|]. split; [exact Hcls|].
+  split; [apply extra_b_sound; vm_compute; reflexivity|].
   intros t ms items text Hin. destruct Hin as [Hin|[]]. inversion Hin; subst t ms items text. clear Hin.
   match goal with |- (forall t0 u, lookup_match ?ms t0 = Some u -> _) /\ _ =>
     assert (HM : forall t0 u, lookup_match ms t0 = Some u ->
